@@ -67,6 +67,23 @@ def pure_cases(ctx, n):
                           ["exp.safepath %s %s" % (hx(base), ",".join(hx(x) for x in ("step", a))),
                            "exp.safepath %s %s" % (hx(base), ",".join(hx(x) for x in ("step", b)))],
                           [hx(ga), hx(gb)], mon, True))
+    # names of kept characters only that differ in the length of a run of dots / underscores / dashes
+    for _ in range(max(20, n // 60)):
+        x = "".join(ctx.rng.choice("abc019") for _ in range(ctx.rng.randint(1, 3)))
+        y = "".join(ctx.rng.choice("xyz5") for _ in range(ctx.rng.randint(0, 3)))
+        ch = ctx.rng.choice("..._-")
+        k, m = ctx.rng.sample([1, 2, 3, 4], 2)
+        a, b = x + ch * k + y, x + ch * m + y
+        base = "/out/study"
+        ga, gb = make_safe_path(base, "step", a), make_safe_path(base, "step", b)
+        mon = []
+        if ga == gb:
+            mon.append(("distinct-workspaces", "hashws=False cause=run-length: the names %r and %r (kept characters "
+                        "only) share the directory %s" % (a, b, ga)))
+        cases.append(Case({"kind": "pure-runs", "base": base, "args": ["step", a], "other": b},
+                          ["exp.safepath %s %s" % (hx(base), ",".join(hx(x_) for x_ in ("step", a))),
+                           "exp.safepath %s %s" % (hx(base), ",".join(hx(x_) for x_ in ("step", b)))],
+                          [hx(ga), hx(gb)], mon, True))
     return cases
 
 
